@@ -197,6 +197,65 @@ def coq_post(chk, batches):
     return [(o, x) for _, o, x in res]
 
 
+def saddle_oracle(chk):
+    """the isolated X-point case: Equilibrium.findSaddlePoint on analytic saddles (tilted, non-separable, both signs of psi) with the search box described from
+    each of its four corners and rotated -- the X-point inside the box is returned where grad(psi) vanishes, whatever the description of the box"""
+    rng = random.Random(chk.seed + 1907)
+    cases = []
+    for k in range(4 if chk.tier == "quick" else 24):
+        x0 = (rng.uniform(0.9, 1.1), rng.uniform(-0.05, 0.05))
+        coef = [rng.uniform(0.7, 1.3), rng.uniform(0.5, 1.2), rng.uniform(-0.3, 0.3), rng.uniform(-0.5, 0.5), rng.uniform(-0.4, 0.4), rng.uniform(-0.2, 0.2)]
+        sign = rng.choice([1.0, -1.0])
+        side, cen = 0.3, (x0[0] + rng.uniform(-0.03, 0.03), x0[1] + rng.uniform(-0.03, 0.03))
+        for ang in (0.0, math.radians(rng.choice([4.0, -6.0, 8.0]))):
+            e1 = (-math.sin(ang), math.cos(ang))
+            e2 = (e1[1], -e1[0])
+            q1 = (cen[0] - 0.5 * side * (e1[0] + e2[0]), cen[1] - 0.5 * side * (e1[1] + e2[1]))
+            corners = [q1, (q1[0] + side * e1[0], q1[1] + side * e1[1]), (q1[0] + side * (e1[0] + e2[0]), q1[1] + side * (e1[1] + e2[1])), (q1[0] + side * e2[0], q1[1] + side * e2[1])]
+            for j in range(4):
+                cases.append(dict(coef=coef, sign=sign, x0=list(x0), p1=list(corners[j]), p2=list(corners[(j + 1) % 4]), angle=ang, start_corner=j))
+    rc, res, o, e = common.run_impl_json("impl/saddle.py", dict(cases=cases, limit=15), timeout=1500)
+    if res is None or len(res) != len(cases):
+        chk.tie_broken("impl/saddle.py", f"rc={rc}: {(o + e)[-800:]}")
+        return 0
+
+    def true_saddle(c):      # Newton on the analytic gradient from x0 (the cubic terms move the saddle nowhere: the gradient vanishes AT x0)
+        return c["x0"]
+    def suitable(c):
+        """the method's own precondition: psi has an interior extremum on each of the four edges of the box (the derivative along the edge changes sign)"""
+        a, b, cc, d, e, f = c["coef"]
+        def grad(R, Z):
+            x, y = R - c["x0"][0], Z - c["x0"][1]
+            return (2 * a * x + cc * y + 3 * d * x * x + e * y * y, -2 * b * y + cc * x + 2 * e * x * y + 3 * f * y * y)
+        p1, p2 = c["p1"], c["p2"]
+        L = math.hypot(p2[0] - p1[0], p2[1] - p1[1])
+        e1 = ((p2[0] - p1[0]) / L, (p2[1] - p1[1]) / L)
+        e2 = (e1[1], -e1[0])
+        p3 = (p2[0] + L * e2[0], p2[1] + L * e2[1])
+        p4 = (p1[0] + L * e2[0], p1[1] + L * e2[1])
+        for q, r_ in ((p1, p2), (p2, p3), (p3, p4), (p4, p1)):
+            t = ((r_[0] - q[0]) / L, (r_[1] - q[1]) / L)
+            g0, g1 = grad(*q), grad(*r_)
+            if (g0[0] * t[0] + g0[1] * t[1]) * (g1[0] * t[0] + g1[1] * t[1]) >= 0:
+                return False
+        return True
+    worst, refused = 0.0, 0
+    for c, r in zip(cases, res):
+        if "error" in r and not suitable(c):
+            refused += 1          # an explicit refusal of a box on whose edges psi has no extremum
+            continue
+        if "found" not in r:
+            chk.fail("saddle-point:not-found", "findSaddlePoint does not return the X-point inside the search box (it raises or does not terminate) for some description of the box",
+                     {"case": c, "outcome": r})
+            continue
+        d = math.hypot(r["found"][0] - c["x0"][0], r["found"][1] - c["x0"][1])
+        worst = max(worst, d)
+        if d > 1e-6:
+            chk.fail("saddle-point:wrong-position", "findSaddlePoint returns a point where grad(psi) does not vanish", {"case": c, "found": r["found"], "distance_from_saddle": d})
+    chk.notes["saddle_oracle"] = {"cases": len(cases), "worst_distance": worst, "refused_unsuitable_box": refused}
+    return len(cases)
+
+
 def legs_oracle(chk):
     """findLegs labels the two legs of an X-point 'inner' / 'outer' by the major radius of their STRIKE POINTS: straight-line separatrices (closed-form strike
     points) in a wall with an inclined side, legs swept to the same side (where the order at the wall can be the reverse of the order at the X-point) or one to
@@ -284,7 +343,9 @@ def run(chk):
         truth = [("O", c["R0"] - c["sigma"] * c["Zx"] / 2, c["Z0"])] + [("X", c["R0"], c["Z0"] + c["Zx"]), ("X", c["R0"], c["Z0"] - c["Zx"])]
         for kind, tr_, tz_ in truth:
             got = r["opoints"] if kind == "O" else r["xpoints"]
-            hits = [p for p in got if math.hypot(p[0] - tr_, p[1] - tz_) < 2e-3]
+            # (three cells: a point is accepted as soon as Br^2 + Bz^2 < xpoint_refine_atol, which for the weaker fields (k = 0.3) already holds at the
+            #  grid node next to the critical point -- a position error of a few mm that the requested tolerance allows)
+            hits = [p for p in got if math.hypot(p[0] - tr_, p[1] - tz_) < 3 * (c["rmax"] - c["rmin"]) / (c["n"] - 1)]
             n += 1
             if len(hits) != 1:
                 chk.fail(f"exactly-once:{kind}-point:returned-{len(hits)}-times", f"an {kind}-point inside the searched interior is not returned exactly once", dict(case=c, point=[tr_, tz_], returned=got))
@@ -423,6 +484,7 @@ def run(chk):
         if c["wall"] == "rect" and abs(r["psi_sep"][0] - xs[0][0]) > 1e-5 * abs(pa):
             chk.fail("primary-xpoint", "the primary X-point (psi_sep[0]) is not the X-point closest in psi to the magnetic axis", dict(rp, psi_sep=r["psi_sep"], expected=xs[0][0]))
     n += legs_oracle(chk)
+    n += saddle_oracle(chk)
     chk.count(evaluations=n, distinct=n)
     chk.cov["rule"] = ("random sums of 2-4 Gaussians (both signs of psi, 4 input resolutions, critical points at arbitrary sub-grid positions, well-separated and non-degenerate, clearly inside the "
                        "searched interior): every true critical point (independent multi-start Newton on the analytic function) returned exactly once, classification, position, gradient, psi value, "
